@@ -7,6 +7,7 @@ import (
 	"strings"
 
 	sdk "github.com/cosmos/cosmos-sdk/types"
+	banktypes "github.com/cosmos/cosmos-sdk/x/bank/types"
 
 	ophosttypes "github.com/initia-labs/OPinit/x/ophost/types"
 )
@@ -46,7 +47,7 @@ func (c *L2Case) Snapshot() {
 		if s.Sign() != 0 {
 			c.Sups = append(c.Sups, fmt.Sprintf("(%s, %s)", coqStr(d), coqZ(s)))
 		}
-		if base, err := e.K.GetBaseDenom(e.Ctx, d); err == nil {
+		if base, err := e.K.DenomPairs.Get(e.Ctx, d); err == nil { // the stored map itself, not the query that may fall back
 			c.Pairs = append(c.Pairs, fmt.Sprintf("(%s, %s)", coqStr(d), coqStr(base)))
 		}
 	}
@@ -124,8 +125,15 @@ type L2Scenario struct {
 	Native   string
 	BridgeID uint64
 	L1Addrs  []string // L1-side sender strings
+	MetaNoPair bool   // L2Denoms[1] starts with bank metadata but without a denom pair
 	ExecIDs  []uint64
 	AdminID  uint64
+}
+
+// SetL2DenomMeta writes ordinary bank metadata for a denom (what bank genesis or setDenomMetadata leave).
+func SetL2DenomMeta(e *L2Env, denom, display string) {
+	e.BK.SetDenomMetaData(e.Ctx, banktypes.Metadata{Base: denom, Display: display, Symbol: display, Name: display + " token",
+		Description: "token " + display, DenomUnits: []*banktypes.DenomUnit{{Denom: display, Exponent: 0}}})
 }
 
 func NewL2Scenario(seed uint64, id int, withFaults bool) *L2Scenario {
@@ -148,6 +156,15 @@ func NewL2Scenario(seed uint64, id int, withFaults bool) *L2Scenario {
 		e.Fund(u.Addr, sdk.NewCoins(sdk.NewInt64Coin(sc.Native, 1000)))
 	}
 	e.FundModule("fee_collector", sdk.NewCoins(sdk.NewInt64Coin(sc.Native, 500)))
+	// richer initial states: the native denom always has ordinary bank metadata, and in a
+	// seed-derived third of the scenarios the second bridged denom has bank metadata but NO denom
+	// pair yet (bank genesis / upgrade).  The model ignores metadata: on a correct tree pair
+	// registration and withdrawability do not depend on it.
+	SetL2DenomMeta(e, sc.Native, sc.Native)
+	if NewRng(seed^0x6d657461).Intn(3) == 0 {
+		SetL2DenomMeta(e, sc.L2Denoms[1], sc.L1Denoms[1])
+		sc.MetaNoPair = true
+	}
 	accts := []uint64{1, 2, 3, 4, 5, 6, ModOpchild, ModFeeCol, ModFeeCol + 1}
 	denoms := append(append([]string{}, sc.L2Denoms...), sc.Native)
 	sc.Case = &L2Case{ID: id, Env: e, Track: L2Track{accts, denoms}, Params: p}
